@@ -1,7 +1,7 @@
 """Structured random generator of macro invocations (items with attributes), used by several
 properties.  Every random choice derives from the one `random.Random` passed in."""
 from . import sx
-from .pool import FIELD_TYPES, FOREIGN_ATTRS, FOREIGN_PATH_ATTRS, VIS
+from .pool import FIELD_TYPES, TOKEN_FIELD_TYPES, FOREIGN_ATTRS, FOREIGN_PATH_ATTRS, VIS
 
 BINOPS = ['Add', 'BitAnd', 'BitOr', 'BitXor', 'Div', 'Mul', 'Rem', 'Shl', 'Shr', 'Sub']
 STRUCT_ONLY = BINOPS + [b + 'Assign' for b in BINOPS] + ['Neg', 'Not', 'Deref', 'DerefMut']
@@ -148,7 +148,7 @@ class Gen:
 
     # ---- items --------------------------------------------------------------------------
     def field_type(self):
-        return self.pick(FIELD_TYPES)
+        return self.pick(TOKEN_FIELD_TYPES)
 
     def fields(self, traits, feats, maxn=4, density=0.35, raw=False):
         kind = self.r.randrange(5)
